@@ -4,7 +4,7 @@
    created), i.e. in creation order the names in d.triggers never refer to d itself or to anything before d.
    Consequence: the recursion of TriggerDowntime along `triggers` only moves forward in the list, so the fuel
    (number of downtimes + 1) is never exhausted, and one TriggerDowntime(t) call gives every downtime reachable
-   through `triggers` from a downtime it triggers - and admitted by its own window - the same trigger time t. *)
+   through `triggers` from a downtime it triggers - and inside its own window - the same trigger time t. *)
 From Icv Require Import Base.Tac Ck.CkState Ck.CkFull Ck.CkDtDefs Ck.CkDtProofs.
 Local Open Scope Z_scope.
 Arguments chain_fuel : simpl never.
@@ -347,7 +347,7 @@ Proof.
     apply (C0a x xa cid c Hx Hxa); try assumption. apply (Rw_id _ _ _ HRx).
 Qed.
 
-(* the start timer: every downtime chained (at any level) to one that became triggered, and admitted by its own
+(* the start timer: every downtime chained (at any level) to one that became triggered, and inside its own
    window, became triggered too *)
 Lemma start_timer_closed now f :
   NoDup (ids (f_dts f)) -> Ord (f_dts f) -> entries_sane now (f_dts f) ->
